@@ -167,7 +167,7 @@ def c19_run(prop, tier, seed):
 P_ASSUME = COMMON_ASSUME + ["the reference evaluator and the AST printer are trusted (guarded by the wrong-reference self-test and the mutation demos)"]
 
 SPECS = {}
-QUICK_FAMILIES = ["shape", "scc", "lat", "agg", "timeout", "ds", "par", "sugar"]
+QUICK_FAMILIES = ["shape", "scc", "lat", "agg", "timeout", "ds", "par", "sugar", "macro"]
 SPECS["C01"] = {"run": prog_check(["shape", "scc"], "C01"), "replay": prog_replay,
                 "technique": "bounded-exhaustive enumeration of programs (compiled by the real macros) x all input databases, compared with a naive reference evaluator",
                 "assumptions": P_ASSUME + ["programs from the families F-shape and F-scc, domain {0,1}"]}
@@ -260,6 +260,11 @@ SPECS["C14"] = {"run": prog_check(["timeout"], "C14"), "replay": prog_replay,
 SPECS["C07"] = {"run": prog_check(["sugar"], "C07"), "replay": prog_replay,
                 "technique": "differential: every sugared program and its hand expansion (by the harness's own expander implementing the documented rules) are both compiled by the real macros and compared with each other and the reference on all inputs",
                 "assumptions": P_ASSUME + ["the harness expander is the documented semantics written down once; the reference evaluator run on the sugared AST directly must agree with it (checked on every input)"]}
+
+
+SPECS["C08"] = {"run": prog_check(["macro"], "C08"), "replay": prog_replay,
+                "technique": "differential: programs with in-program macros under every spelling clash between call-site variables, macro locals, parameter names and renamer-generated names vs their hand expansion (parameters substituted, macro-bound identifiers fresh per invocation), both compiled by the real macros, all inputs",
+                "assumptions": P_ASSUME + ["7 macro definitions x 16 call patterns x 7 naming schemes; the self-referential macro case is part of C15"]}
 
 
 def ds_check(dsname):
